@@ -105,6 +105,60 @@ def reraise(rep):
     for ob in ex.obls:
         r = prover.prove(list(ob.pc), ob.goal); rep.add(f'C11.reraise_exception_placeholder.{ob.kind}#{ob.name.rsplit(".", 1)[-1]}', r.status, time=r.time, backend=r.backend, where=ob.where)
 
+def reduce_overrides(rep):
+    """every hint - hashable or not - passes through _reduce_hint_overrides() under every configuration: the lookup of the hint in
+    conf.hint_overrides hashes it.  Function mode with the overrides table a ghost map whose lookups raise TypeError for an unhashable key
+    (language contract), the hint an arbitrary object, the table arbitrary (empty or not): no exception escapes (the reducer neither wraps
+    nor needs to wrap anything: an unhashable hint is simply not overridden)."""
+    from pyvc import funcmode, model as M, discharge, symx
+    from pyvc.symx import Exec, St, VObj, VPy, VBool, VGhostMap
+    import beartype._check.convert._reduce.redmain as mod
+    fobj, node, _ = funcmode.load('beartype/_check/convert/_reduce/redmain.py', '_reduce_hint_overrides')
+    uni = M.Universe(); uni.const(TypeError)
+    HINT = z3.Const('hint', M.Obj); CONF = z3.Const('conf', M.Obj); PARENT = z3.Const('hint_parent_sane', M.Obj)
+    def m_fresh(tag): return lambda ex, s, f, a, kw, w: [(s, VObj(M.fresh(tag)))]
+    def m_bool(tag): return lambda ex, s, f, a, kw, w: [(s, VBool(M.fresh(tag, z3.BoolSort())))]
+    cm = {}
+    for nm, m in (('is_hint_recursive', m_bool('is_recursive')), ('make_hint_sane_recursable', m_fresh('hint_sane'))):
+        if hasattr(mod, nm): cm[getattr(mod, nm)] = m
+    ex = Exec(uni, dict(mod.__dict__), call_model=cm, name='_reduce_hint_overrides'); ex.fields_mode = True; ex.ghost_unhashable = True
+    table = VGhostMap('hint_overrides'); nonempty = z3.Bool('overrides_nonempty')
+    orig_getattr = ex.getattr_
+    def ga(s, b, name, _o=orig_getattr):
+        if isinstance(b, VObj) and b.t.eq(CONF) and name == 'hint_overrides': return [(s, table)]
+        return _o(s, b, name)
+    ex.getattr_ = ga
+    orig_truth = ex.truth
+    def truth(v, _o=orig_truth):
+        if isinstance(v, VGhostMap): return nonempty
+        return _o(v)
+    ex.truth = truth
+    try: outs = ex.run_function(node, St(), (VObj(HINT), VObj(CONF), VObj(PARENT)), {}, fobj)
+    except symx.Unsupported as e: rep.error(f'C11._reduce_hint_overrides: unsupported: {e}'); return
+    pr = discharge.Prover(uni.axioms())
+    for ob in ex.obls:
+        r = pr.prove(list(ob.pc), ob.goal); rep.add(f'C11.reduce_overrides.{ob.kind}#{ob.name.rsplit(".", 1)[-1]}', r.status, time=r.time, backend=r.backend, where=ob.where)
+    n = 0
+    for i, (s_, v) in enumerate(ex.raised):
+        r = pr.prove(list(s_.pc), z3.BoolVal(False))       # is this raising path feasible?
+        if r.status == 'proved': continue
+        n += 1
+        cls = getattr(v, 'cls', None)
+        from beartype.roar import BeartypeException
+        ok = isinstance(cls, type) and issubclass(cls, BeartypeException)
+        extra = {}
+        if not ok:
+            src = ("from typing import Annotated\nfrom beartype import BeartypeConf, FrozenDict\nfrom beartype.door import is_bearable\nfrom beartype.roar import BeartypeException\nbad = []\n"
+                   "for conf in (BeartypeConf(), BeartypeConf(is_pep484_tower=True), BeartypeConf(hint_overrides=FrozenDict({bytes: str}))):\n    for hint in (Annotated[int, []], list[Annotated[int, {}]]):\n"
+                   "        try: is_bearable(1, hint, conf=conf)\n        except BeartypeException: pass\n        except Exception as e: bad.append(f'{hint!r} under {conf!r}: {type(e).__name__}: {e}')\nprint(bad[:3]); sys.exit(1 if bad else 0)\n")
+            import subprocess
+            from pyvc import REPO
+            p_ = subprocess.run([sys.executable, '-c', f'import sys; sys.path.insert(0, {REPO!r})\n' + src], capture_output=True, text=True)
+            extra = dict(replay=dict(kind='C11', reproduced=p_.returncode == 1, detail=p_.stdout.strip()[-300:]), replay_script=(f"sys.path.insert(0, os.environ.get('VERIF_REPO', {REPO!r}))\n" + src) if p_.returncode == 1 else None)
+        rep.add(f'C11.reduce_overrides.post.no_foreign_exception.path{i}', 'proved' if ok else 'refuted', backend='z3+structural', **extra,
+                where=f'a feasible path of _reduce_hint_overrides raises {getattr(cls, "__name__", v)}' + ('' if ok else ' for an unhashable hint: the lookup in conf.hint_overrides is not protected'))
+    rep.add('C11.reduce_overrides.post.returns_for_every_hint', 'proved' if outs else 'refuted', backend='structural', where=f'{len(outs)} returning paths, {n} feasible raising paths')
+
 def no_try_around_user_code(rep):
     """generated checkers and plain wrappers contain no try statement at all: user exceptions (callee, validators, __instancecheck__) propagate"""
     from pyvc import capture, shapes
@@ -236,7 +290,7 @@ def _decorate(hint, where):
 
 def main(tier, seed):
     rep = report.Report('C11', tier, seed, 'other', f'./check C11 --tier {tier}')
-    for fn in (raise_sites, reraise, no_try_around_user_code):
+    for fn in (raise_sites, reraise, no_try_around_user_code, reduce_overrides):
         try: fn(rep)
         except Exception: rep.error(f'C11 {fn.__name__}: ' + traceback.format_exc()[-2000:])
     try:
